@@ -27,13 +27,13 @@ WRAP = ['-Wl,' + ','.join('--wrap=' + s for s in WRAPPED)]
 REQUIRED_THEOREMS = ['OpusProps.C03.' + t for t in (
     'silkSyms_total', 'silkSyms_indices_in_range', 'silkSyms_decode_indices_in_range', 'silkSyms_tables_wellformed',
     'silkSyms_tables_frozen_eq_repo', 'silkSyms_lsb_loop_exits', 'silkSyms_pulses_fit_int16',
-    'silkSyms_symbols_history_free', 'celtHdr_total_in_range', 'celtHdr_total_arbitrary_bytes',
+    'silkSyms_symbols_history_free', 'silkSyms_lag_index_packet_bound', 'celtHdr_total_in_range', 'celtHdr_total_arbitrary_bytes',
     'celtHdr_tables_frozen_eq_repo')]
 UNPROVED = [
-    'silkSyms_lag_index_packet_bound: lagIndex in [-16, 277] for every frame of every packet. Proved: the per-call bound '
-    '(absolute range or -8..+11 around the previous lag index, silkSyms_indices_in_range) and that conditional coding only ever '
-    'refers to a frame of the same packet (silkSyms_symbols_history_free); not yet combined into the chain-depth invariant '
-    '(at most two conditional steps after an absolute lag) that gives the numeric bound',
+    'silkSyms_lag_index_tight_bound: lagIndex in [-16, 277]. Proved is the packet-level bound [-48, 321] '
+    '(silkSyms_lag_index_packet_bound, a counting argument plus history-freeness, enough for the opus_int16 store); the sharper '
+    'interval needs the chain-depth invariant "at most two conditional steps after an absolute lag" as a single-run '
+    'invariant and is not proved',
     'silkSyms_lockstep (design priority P1): the decoder model reads back exactly the symbols the mirrored encoder calls of '
     'silk_encode_indices / silk_encode_pulses wrote — a corollary of C08 (range coder) that is out of this property\'s scope; '
     'on the implementation it is searched (encoder final range == decoder final range), not proved',
